@@ -539,6 +539,40 @@ def scenario_uuid(ctx, seed, kind, np_, pending):
         shutil.rmtree(a.root, ignore_errors=True)
 
 
+def scenario_uuid_empty(ctx, seed, np_, where, variant):
+    """an emptied data disk whose UUID ALSO differs from the one recorded at the last sync (an unmounted / replaced disk): the
+    UUID-change limit comes first (state_map, while loading), then the empty-disk rule of the scan; neither hides the other"""
+    rng = random.Random(seed)
+    a = new_array(ctx, rng, nd=2, np_=np_, ncontent=2, uuid=True)
+    paths = L.Paths(a)
+    desc = 'uuid:swapped+empty:%s@%d np=%d' % (variant, where, np_)
+    replay = {'seed': seed, 'kind': 'uuid_empty', 'np': np_, 'where': where, 'variant': variant}
+    try:
+        def swap(ls):
+            i1 = [i for i, l in enumerate(ls) if l.startswith('disk d1 ')][0]
+            i2 = [i for i, l in enumerate(ls) if l.startswith('disk d2 ')][0]
+            ls[i1], ls[i2] = ls[i2], ls[i1]
+            return ls
+        edit_conf(a, swap)
+        if not trig_empty(a, rng, where, variant):
+            raise RuntimeError('variant %s is not a trigger' % variant)
+        if np_ < 2:
+            o = run_case(ctx, a, paths, 'sync', [], 'refuse', desc + ' (UUID limit first)', replay)
+            o = run_case(ctx, a, paths, 'sync', ['--force-empty'], 'refuse', desc + ' --force-empty does not lift the UUID limit', replay)
+            o = run_case(ctx, a, paths, 'sync', ['-U'], 'refuse', desc + ' -U does not lift the empty-disk rule', replay)
+            if 'missing or have been rewritten' not in o.r.err.replace('\n', ' '):
+                ctx.viol('uuid_empty_msg', 'refusal without the empty-disk diagnostic (%s): %s' % (desc, o.r.err[-200:]), replay)
+            run_case(ctx, a, paths, 'sync', ['-U', '--force-empty'], 'proceed', desc + ' both overrides', replay)
+        else:
+            o = run_case(ctx, a, paths, 'sync', [], 'refuse', desc + ' (2 UUID changes <= 2 levels: the empty-disk rule decides)', replay)
+            cross_check_scan(ctx, o, desc)
+            run_case(ctx, a, paths, 'sync', ['-U'], 'refuse', desc + ' -U', replay)
+            run_case(ctx, a, paths, 'diff', [], None, desc + ' diff', replay)
+            run_case(ctx, a, paths, 'sync', ['--force-empty'], 'proceed', desc + ' override', replay)
+    finally:
+        shutil.rmtree(a.root, ignore_errors=True)
+
+
 def scenario_range(ctx, seed, shape, pending):
     """sync -S beyond the end of the array refuses before anything is touched; -S/-B inside proceed"""
     rng = random.Random(seed)
@@ -1064,6 +1098,22 @@ def main(tier, replay=None):
                 for where in (range(sh[1]) if thorough else [rng.randrange(sh[1])]):
                     jobs.append((scenario_sync_trigger, (rng.getrandbits(30), 'parity', where, variant, False if variant != 'cut100' else bool(k % 2), sh, fmt, uu)))
                 k += 1
+    # (c5) the short-parity test does not depend on the -S/-B range: damage beyond the end of the range / before its start
+    rcombos = [(None, 'one_block_short', ['-B', '1']), (None, 'truncate_zero', ['-S', '1', '-B', '2']), (None, 'delete', ['-B', '2']),
+               ('hashsize8', 'cut100', ['-B', '1']), ('hashsize8', 'one_block_short', ['-S', '2', '-B', '1']), ('split2', 'truncate_zero', ['-B', '1']),
+               ('split2lim', 'split1_short', ['-B', '1']), ('split2lim', 'split0_short', ['-S', '1', '-B', '1']), ('split2lim', 'midcut', ['-B', '2']),
+               ('split2', 'cut1', ['-S', '0', '-B', '3'])]
+    for i, (fmt, variant, extra) in enumerate(rcombos):
+        for uu in ([False] if not thorough else [False, True]):
+            sh = [(2, 1, 1), (2, 2, 2)][i % 2] if uu else [(3, 2, 2), (2, 1, 1), (3, 3, 1)][i % 3]
+            for where in (range(sh[1]) if thorough else [rng.randrange(sh[1])]):
+                jobs.append((scenario_sync_trigger, (rng.getrandbits(30), 'parity', where, variant, bool(i % 2), sh, fmt, uu, extra)))
+    # (a3) an emptied disk whose UUID changed too
+    for np2 in (1, 2):
+        for where in ([0, 1] if thorough else [np2 % 2]):
+            for variant in (['all_removed', 'removed_plus_new'] if thorough else [['all_removed', 'removed_plus_new'][np2 % 2]]):
+                jobs.append((scenario_uuid_empty, (rng.getrandbits(30), np2, where, variant)))
+    jobs.append((scenario_uuid_empty, (rng.getrandbits(30), 2, 0, 'all_rewritten_pure')))
     # (b'') the zero-size interlock for files in every recorded state
     for kind_ in ['partly', 'never', 'killed', 'copy']:
         for uu in [False, True]:
